@@ -37,13 +37,15 @@ def upper (b : Byte) : Byte := if 97 ≤ b && b ≤ 122 then b - 32 else b
 def str (s : String) : Seq := s.toUTF8.toList
 
 /-- #NEXUS BEGIN DATA CHARACTERS TAXA TAXLABELS TREES TREE DIMENSIONS NTAX NCHAR FORMAT DATATYPE MISSING
-MATCHCHAR GAP MATRIX END (byte literals so that the kernel can evaluate the table) -/
+MATCHCHAR GAP MATRIX END ENDBLOCK (byte literals so that the kernel can evaluate the table) -/
 def keywords : List (Seq × Kind) := [
   (([35, 78, 69, 88, 85, 83] : Seq), .nexus), (([66, 69, 71, 73, 78] : Seq), .begin), (([68, 65, 84, 65] : Seq), .data), (([67, 72, 65, 82, 65, 67, 84, 69, 82, 83] : Seq), .data),
   (([84, 65, 88, 65] : Seq), .taxa), (([84, 65, 88, 76, 65, 66, 69, 76, 83] : Seq), .taxlabels), (([84, 82, 69, 69, 83] : Seq), .trees), (([84, 82, 69, 69] : Seq), .tree),
   (([68, 73, 77, 69, 78, 83, 73, 79, 78, 83] : Seq), .dimensions), (([78, 84, 65, 88] : Seq), .ntax), (([78, 67, 72, 65, 82] : Seq), .nchar), (([70, 79, 82, 77, 65, 84] : Seq), .format),
   (([68, 65, 84, 65, 84, 89, 80, 69] : Seq), .datatype), (([77, 73, 83, 83, 73, 78, 71] : Seq), .missing), (([77, 65, 84, 67, 72, 67, 72, 65, 82] : Seq), .matchchar), (([71, 65, 80] : Seq), .gap),
-  (([77, 65, 84, 82, 73, 88] : Seq), .matrix), (([69, 78, 68] : Seq), .end_)]
+  (([77, 65, 84, 82, 73, 88] : Seq), .matrix), (([69, 78, 68] : Seq), .end_),
+  -- ENDBLOCK: the standard synonym of END (lexer, `case "END", "ENDBLOCK"`)
+  (([69, 78, 68, 66, 76, 79, 67, 75] : Seq), .end_)]
 
 def classify (lit : Seq) : Tok :=
   if (parseInt64 lit).isSome then ⟨.numeric, lit⟩
@@ -81,6 +83,9 @@ structure Facts where
   rejectsNegativeCounts : Bool
   rejectsEmptyRows : Bool
   keywordRowsAreResidues : Bool := false
+  /-- `case BEGIN:` of `parseTaxa` / `parseData` is an error (blocks do not nest); without it a `BEGIN` inside a block is
+  skipped as an unsupported command and the block stays open -/
+  rejectsNestedBegin : Bool := false
 
 /-- `consumeComment` after a `[`: scan up to `]`.  `err` = an EOF was met on the way (the Go code
 records "unmatched bracket" and, unless repaired, keeps looping). -/
@@ -193,6 +198,11 @@ def parseTaxa (f : Facts) : Nat → Seq → Int → List Name → R (Int × List
     | .openbrack => do
       let r' ← consumeComment f (r.length + 3) r false
       parseTaxa f fuel r' ntax labels
+    | .begin =>
+      if f.rejectsNestedBegin then .error .error
+      else do
+        let r' ← skipCommand (r.length + 3) r
+        parseTaxa f fuel r' ntax labels
     | _ => do
       let r' ← skipCommand (r.length + 3) r
       parseTaxa f fuel r' ntax labels
@@ -296,6 +306,11 @@ def parseData (f : Facts) : Nat → Seq → Data → R (Data × Seq)
     | .openbrack => do
       let r' ← consumeComment f (r.length + 3) r false
       parseData f fuel r' d
+    | .begin =>
+      if f.rejectsNestedBegin then .error .error
+      else do
+        let r' ← skipCommand (r.length + 3) r
+        parseData f fuel r' d
     | _ => do
       let r' ← skipCommand (r.length + 3) r
       parseData f fuel r' d
